@@ -267,7 +267,9 @@ Definition init_module (W : world) (s : st) (m : nat) : phase :=
     let '(s2, o) := body W (emit s1 (LIread (now s1) m)) in
     match o with
     | OOk => PGo s2
-    | OErr c k => if is_comm c then PCom s2 else PCrash s2
+    | OErr c k => if is_comm c then PCom s2                      (* re-raised, caught by the start-up escape *)
+                  else if initialreads_contained then PGo s2     (* logged, the start-up goes on (fix 3828d54) *)
+                  else PCrash s2
     end
   else PGo s1.
 
